@@ -370,7 +370,7 @@ pub fn run(tier: Tier, seed: u64, replay: Option<Value>) -> i32 {
         tier,
         seed,
         "exploration",
-        "server started with a generated --requirepass and a pre-loaded dataset in three databases, one authenticated control connection. (a) enumerated: every command name the server dispatches (read from the source, including SYNC/PSYNC/REPLCONF/MONITOR/SUBSCRIBE/SHUTDOWN/CLIENT/DEBUG) with 0..4 arguments, lower/mixed-case and space-padded spellings, plus ~70 plausible attack forms, each on a fresh unauthenticated connection in four contexts (alone; after PING; after a failed AUTH; third in a pipelined write). Oracle: exactly one error frame and no other byte; server alive; control connection still served; canonical dump of the dataset unchanged; PUBLISH to every channel the intruder could have named reports 0 receivers; INFO replication shows no replica; nothing reaches the intruder while the control connection writes. (b) generated histories of wrong passwords (prefix, extension, case changes, empty, padded, NUL/CRLF-suffixed, random binary, 64 KB) interleaved with commands, then the exact password: wrong ones are errors, the right one authenticates this connection only. Non-trivial = every enumerated (command form, context) pair and every history with at least one wrong AUTH; distinct by hash",
+        "server started with a generated --requirepass and a pre-loaded dataset in three databases, one authenticated control connection. (a) enumerated: every command name the server dispatches (read from the source, including SYNC/PSYNC/REPLCONF/MONITOR/SUBSCRIBE/SHUTDOWN/CLIENT/DEBUG) with 0..4 arguments, lower/mixed-case and space-padded spellings, plus ~70 plausible attack forms, each on a fresh unauthenticated connection in seven contexts (alone; after PING; after a failed AUTH; third in a pipelined write; in the same write as a failing AUTH, a malformed AUTH, a PING plus two-argument AUTH). Oracle: exactly one error frame and no other byte; server alive; control connection still served; canonical dump of the dataset unchanged; PUBLISH to every channel the intruder could have named reports 0 receivers; INFO replication shows no replica; nothing reaches the intruder while the control connection writes. (b) generated histories of wrong passwords (prefix, extension, case changes, empty, padded, NUL/CRLF-suffixed, random binary, 64 KB) interleaved with commands, then the exact password: wrong ones are errors, the right one authenticates this connection only. Non-trivial = every enumerated (command form, context) pair and every history with at least one wrong AUTH; distinct by hash",
     ));
     if let Some(r) = replay {
         let c = r.get("case").unwrap_or(&r);
@@ -399,6 +399,10 @@ pub fn run(tier: Tier, seed: u64, replay: Option<Value>) -> i32 {
         (vec![crate::model::cmd(&["PING"])], false, "after-ping"),
         (vec![crate::model::cmd(&["AUTH", "not-the-password"])], false, "after-failed-auth"),
         (vec![crate::model::cmd(&["PING"]), crate::model::cmd(&["PING"])], true, "pipelined-third"),
+        // a failing AUTH in the *same write* as the command: per-batch state must not leak
+        (vec![crate::model::cmd(&["AUTH", "not-the-password"])], true, "same-write-after-failed-auth"),
+        (vec![crate::model::cmd(&["AUTH"])], true, "same-write-after-malformed-auth"),
+        (vec![crate::model::cmd(&["PING"]), crate::model::cmd(&["AUTH", "user", "not-the-password"])], true, "same-write-after-ping-and-two-argument-auth"),
     ];
     let stride = tier.pick(2usize, 1usize);
     let mut cases: Vec<(usize, usize)> = Vec::new();
